@@ -389,6 +389,49 @@ async fn exec_op(st: &mut St, op: &Value, obs: &mut Vec<Value>) {
             obs.push(res_obs(&r));
             quiesce(obs).await;
         }
+        "conc" => {
+            // n client threads issue the same action; they meet right before their first state write
+            let n = a.get(1).and_then(|x| x.as_u64()).unwrap_or(2) as usize;
+            let event = s(2);
+            let pid = s(3);
+            let tid = resolve_task(st, &pid, a.get(4).unwrap_or(&Value::Null));
+            let opts = vars_of(a.get(5).unwrap_or(&Value::Null));
+            obs.push(json!({"k":"target","pid":pid,"tid":tid}));
+            verif::arm_rendezvous(&pid, &tid, n, 300);
+            let handle = tokio::runtime::Handle::current();
+            let mut joins = Vec::new();
+            for _ in 0..n {
+                let exec = st.engine.executor();
+                let (event, pid, tid, opts, handle) =
+                    (event.clone(), pid.clone(), tid.clone(), opts.clone(), handle.clone());
+                joins.push(std::thread::spawn(move || {
+                    let _g = handle.enter();
+                    let act = exec.act();
+                    let r = match event.as_str() {
+                        "next" | "complete" => act.complete(&pid, &tid, &opts),
+                        "submit" => act.submit(&pid, &tid, &opts),
+                        "skip" => act.skip(&pid, &tid, &opts),
+                        "remove" => act.remove(&pid, &tid, &opts),
+                        "abort" => act.abort(&pid, &tid, &opts),
+                        "error" => act.error(&pid, &tid, &opts),
+                        "back" => act.back(&pid, &tid, &opts),
+                        _ => Err(acts::ActError::Action(format!("bad event {event}"))),
+                    };
+                    match r {
+                        Ok(_) => "ok".to_string(),
+                        Err(e) => classify(&e.to_string()).to_string(),
+                    }
+                }));
+            }
+            let results: Vec<String> = joins
+                .into_iter()
+                .map(|j| j.join().unwrap_or_else(|_| "panic".to_string()))
+                .collect();
+            verif::disarm_rendezvous();
+            let okn = results.iter().filter(|r| r.as_str() == "ok").count();
+            obs.push(json!({"k":"conc","n":n,"ok":okn,"results":results}));
+            quiesce(obs).await;
+        }
         "tick" => {
             let dt = a.get(1).and_then(|x| x.as_i64()).unwrap_or(0);
             verif::advance_clock(dt);
